@@ -459,6 +459,7 @@ def _check_history(ctx, w, schema, prog, plan, state0, report):
     # ---------------- specification oracle
     state = state0
     viol = None
+    cycle_ok = []          # closures with a cascade cycle whose in-memory delete went through
     groups = flat_plan(w, state0, plan)
     model_dels = []
     for st, grp, rec in zip(plan, groups, steps):
@@ -480,6 +481,7 @@ def _check_history(ctx, w, schema, prog, plan, state0, report):
                     q, key, p = outside[0]
                     viol = ('deleted-despite-required-dependent:' + w.relkind(key), {'step': st, 'closure': C, 'requires': [q, list(key), p]})
                 ctx.count('delete-ok:closure-size:%s' % (len(C) if len(C) < 4 else '4+'))
+                if len(C) > 1 and cascade_cycle(w, state, C): cycle_ok.append(C); ctx.count('delete-ok:closure-with-cascade-cycle')
                 before_links = sum(len(held(so, key)) for i, so in enumerate(state) if so['alive'] and i not in C for key in w.ent_attrs[so['ent']])
                 state = spec_apply(w, state, C)
                 after_links = sum(len(held(so, key)) for i, so in enumerate(state) if so['alive'] for key in w.ent_attrs[so['ent']])
@@ -489,7 +491,7 @@ def _check_history(ctx, w, schema, prog, plan, state0, report):
                 viol = ('cascade-closure-differs', {'step': st, 'deleted': rec['dead'], 'closure-says': expect_dead})
         else:
             # which target raised is not observable for a query delete: find the first target the specification lets fail
-            done = False
+            done = False; went_through = False
             for a in targets:
                 if not state[a]['alive']:
                     model_dels.append(a); continue
@@ -497,7 +499,7 @@ def _check_history(ctx, w, schema, prog, plan, state0, report):
                 reqs = spec_requirers(w, state, C)
                 dead_if_ok = sorted(set(i for i, so in enumerate(state) if not so['alive']) | set(C))
                 if rec['dead'] == dead_if_ok or (len(targets) > 1 and set(dead_if_ok) <= set(rec['dead'])):
-                    model_dels.append(a); state = spec_apply(w, state, C); continue      # this one went through
+                    model_dels.append(a); state = spec_apply(w, state, C); went_through = True; continue      # this one went through
                 model_dels.append(a); done = True
                 ctx.count('failed-delete:%s' % rec['err'])
                 if rec['dead'] != sorted(i for i, so in enumerate(state) if not so['alive']) and not viol:
@@ -524,7 +526,7 @@ def _check_history(ctx, w, schema, prog, plan, state0, report):
                 break
             if not done and not viol:
                 viol = ('delete-raised-although-every-target-went-through:%s' % rec['err'], {'step': st})
-        if rec['err'] and rec['diff'] and not viol:
+        if rec['err'] and rec['diff'] and not viol and not (st[0] == 'query' and went_through):     # earlier targets of a query delete stay deleted
             viol = ('failed-delete-changed-session:' + rec['err'], {'step': st, 'difference': rec['diff']})
     expect = spec_db(w, state)
     got = {'rows': raw1['rows'], 'cols': raw1['cols'], 'links': raw1['links']}
@@ -534,10 +536,17 @@ def _check_history(ctx, w, schema, prog, plan, state0, report):
         ctx.divergence('PRAGMA foreign_keys is off on the connection Pony uses', inp)
     if commit_err:
         ctx.count('commit-failed:' + commit_err)
+        if not any(commit_err.endswith(x) for x in ('OptimisticCheckError', 'IntegrityError', 'TransactionIntegrityError', 'ConstraintError')):
+            ctx.note('flush/commit after the deletes raised %s: %s' % (commit_err, json.dumps(inp)))
         base = {'rows': raw0['rows'], 'cols': raw0['cols'], 'links': raw0['links']}
         if got != base and not viol: viol = ('failed-commit-changed-database:' + commit_err, {'before': base, 'after': got})
         elif not viol and not any(r['err'] for r in steps):
-            viol = ('commit-failed-after-successful-deletes:' + commit_err, {'plan': plan})
+            if cycle_ok and commit_err.endswith('OptimisticCheckError'):
+                # same root as the refused cycle: the rows of a cascade cycle cannot be deleted in an order that keeps the database's
+                # own ON DELETE actions from pre-empting Pony's optimistic UPDATE of a referrer (loud, rolled back)
+                viol = ('cascade-cycle-raises', {'plan': plan, 'closure': cycle_ok[0], 'raised': commit_err + ' at commit'})
+            else:
+                viol = ('commit-failed-after-successful-deletes:' + commit_err, {'plan': plan})
     elif got != expect and not viol:
         viol = ('database-differs-from-prescribed-state', {'database': got, 'prescribed': expect})
     # ---------------- correspondence with the Lean model
@@ -670,7 +679,7 @@ def report(ctx, schema, prog, plan, v):
                   {'schema': s, 'prog': p, 'plan': pl}, observed=detail, expected=EXPECT.get(key.split(':')[0]), key=key)
 
 WHAT = {
-    'cascade-cycle-raises': 'deleting an object whose cascade closure contains a cycle raises (RecursionError / AssertionError) instead of deleting the closure',
+    'cascade-cycle-raises': 'deleting an object whose cascade closure contains a cycle raises (RecursionError / AssertionError at the call, or OptimisticCheckError at commit) instead of deleting the closure',
     'failed-delete-changed-session': 'a delete that raised left the session changed',
     'required-one-to-one-cascade-refused': 'an object whose Required one-to-one attribute has cascade_delete=True can never be deleted: the cascade child refuses because the object being deleted still requires it',
     'deleted-despite-required-dependent': 'a delete succeeded although an object outside the cascade closure requires a deleted object',
@@ -680,6 +689,9 @@ WHAT = {
     'session-dangling': 'after the call a live object of the session still holds a deleted object (reference / collection membership not cleared)',
     'refused-without-required-dependent': 'ConstraintError although no required dependent exists',
     'bulk-dangling': 'a bulk delete left a reference to a missing row',
+    'commit-failed-after-successful-deletes': 'every delete succeeded but the commit raised',
+    'failed-commit-changed-database': 'a commit that raised changed the database',
+    'delete-raised': 'a delete raised an error the property does not allow',
     'bulk-refused-changed-database': 'a refused bulk delete changed the database',
 }
 EXPECT = {
@@ -913,7 +925,10 @@ def run(ctx):
         plan = gen_plan(rng, w, state0) if ok else None
         w.db.disconnect()
         if not ok:
-            ctx.count('data-rejected:' + str(getattr(w, 'populate_error', 'empty'))); continue
+            ctx.count('data-rejected:' + str(getattr(w, 'populate_error', 'empty')))
+            if getattr(w, 'populate_error', None) not in (None, 'UnresolvableCyclicDependency', 'RecursionError', 'ConstraintError'):
+                ctx.note('creating the data raised %s (outside C15: creation/linking): %s' % (w.populate_error, json.dumps({'schema': schema, 'prog': prog})))
+            continue
         mode = rng.random()
         if mode < 0.6:
             ctx.case({'schema': w.model_schema, 'n': len(state0), 'plan': plan}, nontrivial=True, kind='history')
